@@ -1632,6 +1632,7 @@ SUMMARIES = {
     'std::sync::mpsc::Receiver::<T>::iter': recv_iter,
     "<&'a std::sync::mpsc::Receiver<T> as std::iter::IntoIterator>::into_iter": recv_iter,
     'std::iter::repeat_with': repeat_with,
+    'std::iter::sources::repeat_with::repeat_with': repeat_with,
     'std::iter::Iterator::any': _or_else(endless_consume('any'), iter_all_any('any')),
     'std::iter::Iterator::all': _or_else(endless_consume('all'), iter_all_any('all')),
     'std::iter::Iterator::zip': iter_zip,
